@@ -297,6 +297,10 @@ def run(ctx):
     if ctx.replay:
         return replay(ctx)
     gen.gen_consts()
+    try:
+        gen.gen_senders()
+    except gen.GenError as e:
+        gen._fail("senders", str(e))
     ctx.prove()
     vlib.build_acmed()
     deterministic_part(ctx)
